@@ -21,6 +21,8 @@ import (
 	"strings"
 	"time"
 
+	"github.com/pkg/errors"
+
 	chart "helm.sh/helm/v4/pkg/chart/v2"
 )
 
@@ -62,6 +64,10 @@ func (g *GetMetadata) Run(name string) (*Metadata, error) {
 	rel, err := g.cfg.releaseContent(name, g.Version)
 	if err != nil {
 		return nil, err
+	}
+
+	if rel.Chart == nil || rel.Chart.Metadata == nil {
+		return nil, errors.Errorf("release %q has no chart metadata", name)
 	}
 
 	return &Metadata{
